@@ -52,30 +52,54 @@ pub struct BasePath {
 }
 
 impl BasePath {
+    // `base_path` is "file://<library directory>/" as given at start-up. Uris are built and
+    // taken apart segment by segment, so that spaces, non-ASCII characters, '%', '#' or '?' in
+    // directory and file names (and a trailing slash on the library path) cannot change which
+    // note a uri means.
+    fn base_url(&self) -> Url {
+        let dir = self.base_path.trim_start_matches("file://");
+        Url::from_directory_path(dir)
+            .ok()
+            .or_else(|| Url::parse(&self.base_path).ok())
+            .expect("library path to be absolute")
+    }
+
+    fn path_to_url(&self, relative_path: &str) -> Url {
+        let mut url = self.base_url();
+        if let Ok(mut segments) = url.path_segments_mut() {
+            segments.pop_if_empty().extend(relative_path.split('/'));
+        }
+        url
+    }
+
     fn key_to_url(&self, key: &Key) -> Url {
-        Url::parse(&self.base_path)
-            .unwrap()
-            .join(&key.to_path())
-            .expect("to work")
+        self.path_to_url(&key.to_path())
     }
 
     fn relative_to_full_path(&self, url: &str) -> Url {
-        Url::parse(&self.base_path)
-            .unwrap()
-            .join(&format!("{}.md", url.trim_end_matches(".md")))
-            .expect("to work")
+        let path = RelativePath::new("").join_normalized(url).to_string();
+        self.path_to_url(&format!("{}.md", path.trim_end_matches(".md")))
     }
 
     fn name_to_url(&self, key: &str) -> Url {
-        Url::parse(&format!("{}{}.md", self.base_path, key)).unwrap()
+        self.path_to_url(&format!("{}.md", key))
     }
 
     fn url_to_key(&self, url: &Url) -> Key {
-        Key::from_file_name(
-            &url.to_string()
-                .trim_start_matches(&self.base_path)
-                .to_string(),
-        )
+        let base = self.base_url().to_file_path().ok();
+        let path = url.to_file_path().ok();
+
+        match (base, path) {
+            (Some(base), Some(path)) => match path.strip_prefix(&base) {
+                Ok(relative) => Key::from_file_name(&relative.to_string_lossy()),
+                Err(_) => Key::from_file_name(&path.to_string_lossy()),
+            },
+            _ => Key::from_file_name(
+                &url.to_string()
+                    .trim_start_matches(&self.base_path)
+                    .to_string(),
+            ),
+        }
     }
 }
 
